@@ -29,6 +29,8 @@ TWINS["memimage"] = [
     ("RuntimeMemoryImage::get_ro_data_pointer_at_address", "c19.flags"),
 ]
 
+TWINS["fixpoint"] = [("Computation", "c07.closure")]
+
 PROPS = {
     "C01": {
         "units": ["bitvector"],
@@ -72,6 +74,30 @@ PROPS = {
             "apint contracts (shim/apint.rs), rule R4/R5",
         ],
     },
+    "C07": {'units': ['fixpoint'],
+     'level_text': 'Computation::{from_node_priority_list, get_node_value, set_node_value, merge_node_value, update_edge, update_node, take_next_node_from_worklist, compute_with_max_steps, compute, '
+                   'has_stabilized, get_graph, get_context, node_values} of analysis/fixpoint.rs are extracted verbatim from /repo on each run and verified by Verus for every graph, every well-formed '
+                   'priority permutation and every Context whose merge is associative/commutative/idempotent: after compute(), and after compute_with_max_steps() when has_stabilized(), every edge '
+                   'transfer is absorbed by the target value (closure); node values only grow (start values are below the results); steps[n] counts the processings of n and never exceeds max_steps; '
+                   'compute_with_max_steps terminates.',
+     'level_note': 'Not decided: termination of compute(), leastness of the result, independence of the result from the priority order (sampled by the bounded twin c07.closure only). Trusted: '
+                   'shim/fixpoint.rs (petgraph DiGraph/NodeIndex/EdgeIndex, FnvHashMap, BTreeSet<usize> views), five R9 substitutions, the restated Context trait with spec functions. Hypotheses on the '
+                   'Context: merge associative, commutative, idempotent; == on node values is spec equality; merge/update_edge/get_graph are functions of their arguments.',
+     'design_ref': 'DESIGN.md section 3 (C07)',
+     'default_twins': ['c07.closure'],
+     'sweep_twins': ['c07.closure'],
+     'kani': [],
+     'not_covered': ['Computation::new (petgraph::algo::kosaraju_scc(..).into_iter().flatten().collect(): must yield a permutation of the nodes -- petgraph contract, not verified)',
+                     'Computation::node_values_mut (returns impl Iterator<Item=&mut V>; HashMap::keys / values_mut iterators)',
+                     'Computation::get_worklist (BTreeSet::iter().map(closure).collect())',
+                     'create_bottom_up_worklist / create_top_down_worklist are not in fixpoint.rs'],
+     'assumptions': ['HYPOTHESIS (join lattice): Context::merge is associative, commutative, idempotent (merge_laws)',
+                     'HYPOTHESIS: == / != on NodeValue decide specification equality (eq_is_spec_eq)',
+                     'HYPOTHESIS (transfer system): Context::merge, ::update_edge, ::get_graph are deterministic functions of their arguments (ensures r == *_spec(..) in the restated trait); they '
+                     'terminate or diverge, no side effect on the Computation',
+                     'shim/fixpoint.rs contracts of petgraph 0.6 / fnv / std BTreeSet (external_body), written from their documentation',
+                     'rule R5: .expect(..) -> .unwrap() with proved precondition',
+                     '64-bit target (usize = u64)']},
 }
 
 
